@@ -21,7 +21,10 @@ RULE = ("random automata / PDAs / FSTs with JSON-representable state and symbol 
         "to_text / from_text and compared by production sets and by the verified membership oracle; random EBNF texts "
         "whose boxes are compared, by the verified equivalence oracle, with the union of the alternatives of each "
         "head. Non-trivial: machine with >=2 states and >=2 transitions / grammar with >=2 productions.")
-THEOREMS = []
+EXPLANATION = 'Round trips are decided structurally (canonical form of the re-imported object equals that of the original) and, for grammars and recursive automata, by the verified membership / equivalence oracles; the networkx graph container and the json module are exercised, not modelled. No Lean theorem about the label codecs is claimed in this round.'
+THEOREMS = ["Pfl.CFG.cfgMem_iff",
+            "Pfl.Rx.thompson_lang",
+            "Pfl.ENFA.langDiff_none_iff"]
 TOK_VARS = ["S", "A", "B", "x", "y", "aVar", "Zed"]
 TOK_TERS = ["a", "b", "c", "X", "Big", "t1"]
 
